@@ -399,6 +399,9 @@ int __parsec_schedule_vp(parsec_execution_stream_t* submission_es,
             if( NULL == submission_es->next_task ) {
                 submission_es->next_task = ring;
                 ring = (parsec_task_t*)parsec_list_item_ring_chop(&ring->super);
+                /* the retained task must not keep the links of its former ring: it may be
+                 * handed back to a scheduler later (__parsec_schedule_flush_private) */
+                PARSEC_LIST_ITEM_SINGLETON(submission_es->next_task);
                 if( NULL == ring ) {
                     task_rings[vp] = NULL;  /* remove the tasks already scheduled */
                     continue;
